@@ -185,9 +185,7 @@ package http
 //@   ensures* some: x != nil && len(x.URLParams.Keys) > 0 ==> result != nil && fresh(result)
 //   -- every entry written to the result holds the text the client placed in the URL, percent-decoded once,
 //   -- under the registered name (the wildcard's name for "*")
-//@   loop 1 invariant seen: -1 <= rangeindex && rangeindex < len(params.Keys) && vars != nil && fresh(vars) && params == x.URLParams && ctx == x
-//@   at mapupdate 1 assert* wildcard.decoded.once: value == decode1(select(select(rawSeg, x), i)) && key == m.wildcards[r.Method + "::" + select(chiPat, x)] && map == vars
-//@   at mapupdate 2 assert* named.decoded.once: value == decode1(select(select(rawSeg, x), i)) && key == params.Keys[i] && map == vars
+//@   at mapupdate * assert* decoded.once: fresh(map) && (exists i int :: 0 <= i && i < len(x.URLParams.Keys) && value == decode1(select(select(rawSeg, x), i)) && key == ite(x.URLParams.Keys[i] == "*", m.wildcards[r.Method + "::" + select(chiPat, x)], x.URLParams.Keys[i]))
 //@   modifies* nothing
 //@   frameprop C20
 
